@@ -175,6 +175,86 @@ def judge_two_phase(stream: list[dict], batch_size: int, uri: str, split_seed: s
     return "held", None, info
 
 
+def judge_fetch_only(stream: list[dict], batch_size: int, time_buffer: int, wd: str, tag: str
+                     ) -> tuple[str, dict | None, dict]:
+    """Two holders on one database file: the first only ingests; the second is the one the real
+    `otel_to_pv(config, ingest_data=False, find_unique_graphs=True)` creates (it never saw the
+    data arrive) and runs the pipeline's own cleaning + selection + streaming.  Oracle without
+    any assumption on how a fetch-only holder derives its window: whatever traces are in the
+    store AFTER the run, each (root workflow name, shape) among them has exactly one streamed
+    representative, and every streamed trace is stored."""
+    import shutil
+    import sqlite3
+    from vlib import otelgen
+    from tel2puml.otel_to_pv.config import IngestDataConfig
+    from tel2puml.otel_to_pv.otel_to_pv import otel_to_pv
+    info: dict = {}
+    d = os.path.join(wd, "fetch-" + tag)
+    os.makedirs(os.path.join(d, "in"), exist_ok=True)
+    db = os.path.join(d, "store.db")
+    h1 = None
+    try:
+        h1 = store.new_holder("sqlite:///" + db, batch_size, time_buffer)
+        store.ingest(h1, stream)
+        h1.engine.dispose()
+        h1 = None
+        cfg = otelgen.write_config(os.path.join(d, "cfg.yaml"), os.path.join(d, "in"),
+                                   "sqlite:///" + db, batch_size, time_buffer)
+        streamed: dict[str, list[str]] = {}
+        try:
+            for name, streams in otel_to_pv(IngestDataConfig(**cfg), ingest_data=False,
+                                            find_unique_graphs=True):
+                for st in streams:
+                    evs = list(st)
+                    if evs:
+                        streamed.setdefault(name, []).append(evs[0]["jobId"])
+        finally:
+            store.forget_temp_table()
+        con = sqlite3.connect(db)
+        try:
+            rows = con.execute(
+                "SELECT job_name, job_id, event_type, event_id, start_timestamp, end_timestamp, "
+                "application_name, parent_event_id FROM nodes").fetchall()
+        finally:
+            con.close()
+    except ValueError as exc:
+        if "time buffer" in str(exc).lower():
+            return "skip:time buffer larger than the data (documented ValueError)", None, info
+        return f"violated:fetch-only:exception:{type(exc).__name__}", {"exc": repr(exc)[:300]}, info
+    except Exception as exc:
+        return f"violated:fetch-only:exception:{type(exc).__name__}", {"exc": repr(exc)[:300]}, info
+    finally:
+        if h1 is not None:
+            h1.engine.dispose()
+        shutil.rmtree(d, ignore_errors=True)
+    after = [dict(zip(store.FIELDS, r)) for r in rows]
+    # every stored span counts as a candidate: a window that cannot exclude anything
+    want = model_selection(after, (-1, 2**63))
+    info["stored_traces_after_run"] = len({s["job_id"] for s in after})
+    info["removed_traces"] = len({s["job_id"] for s in stream}) - info["stored_traces_after_run"]
+    info["shapes"] = sum(len(v) for v in want.values())
+    ident = {i: (name, sh) for name, shapes in want.items() for sh, ids in shapes.items()
+             for i in ids}
+    for name, ids in streamed.items():
+        seen: dict = {}
+        for i in ids:
+            if i not in ident or ident[i][0] != name:
+                return "violated:fetch-only:streamed-trace-not-stored-under-that-name", {
+                    "name": name, "id": i}, info
+            if ident[i][1] in seen:
+                return "violated:fetch-only:two-representatives-of-one-shape", {
+                    "name": name, "ids": [seen[ident[i][1]], i]}, info
+            seen[ident[i][1]] = i
+    for name, shapes in want.items():
+        got = {ident[i][1] for i in streamed.get(name, [])}
+        if set(shapes) - got:
+            miss = next(iter(set(shapes) - got))
+            return "violated:fetch-only:shape-without-representative", {
+                "name": name, "traces_of_missing_shape": sorted(shapes[miss])[:4],
+                "streamed": sorted(streamed.get(name, []))[:8]}, info
+    return "held", None, info
+
+
 def build_store(rng: random.Random, mode: str) -> tuple[list[dict], dict]:
     """Returns (stream of span dicts, meta)."""
     names = rng.sample(["wf", "wf2", "w f 3"], rng.randint(1, 3))
@@ -333,6 +413,18 @@ def run_chunk(case: dict) -> dict:
                 fails.append({"symptom": v2[9:], "detail": d2, "stream": stream, "batch_size": b2,
                               "time_buffer": 0, "clean_first": False,
                               "meta": dict(meta, two_phase=True, split_seed=split_seed)})
+        if idx % 3 == 1:
+            b3 = rng.choice([1, 2, 3, 1000])
+            tb3 = rng.choice([1, 2, 5, 10, 0])
+            v3, d3, info3 = judge_fetch_only(stream, b3, tb3, wd, f"{case['_idx']}-{idx}")
+            n += 1
+            bump("fetch_only:" + (v3 if v3.startswith("skip") else v3.split(":")[0]))
+            bump("fetch_only_removed_traces", info3.get("removed_traces", 0))
+            bump("fetch_only_shapes", info3.get("shapes", 0))
+            if v3.startswith("violated") and len(fails) < 4:
+                fails.append({"symptom": v3[9:], "detail": d3, "stream": stream, "batch_size": b3,
+                              "time_buffer": tb3, "clean_first": False,
+                              "meta": dict(meta, fetch_only=True)})
         if not samples and mode == "small-exhaustive":
             samples.append({"traces": meta["traces"], "order": meta["order"], "time_buffer": tb,
                             "spans": [[s["job_id"], s["job_name"], s["event_type"],
@@ -396,6 +488,10 @@ def main(tier: str, seed: int) -> int:
 
 
 def run_replay(case: dict) -> dict:
+    if case.get("meta", {}).get("fetch_only"):
+        v, d, info = judge_fetch_only(case["stream"], case["batch_size"], case["time_buffer"],
+                                      core.work_dir(), "replay")
+        return {"status": "ok", "verdict": v, "detail": d, "info": info}
     if case.get("meta", {}).get("two_phase"):
         path = os.path.join(core.work_dir(), "c09-replay.sqlite")
         v, d, info = judge_two_phase(case["stream"], case["batch_size"], "sqlite:///" + path,
